@@ -89,8 +89,14 @@ def run(ctx):
     nseq = 0
     letcases = relgen.systematic_let_cases(3 if quick else 4, SAFE, sample=(random.Random(33), 200 if quick else 1500))
     ctx.coverage_extra["systematic_let_boundary_cases"] = len(letcases)
-    for label, rng, n, prof in [("let-boundary", None, 0, SAFE), ("fixed", random.Random(303), 500 if quick else 4000, SAFE), ("seed", ctx.rng, 300 if quick else 4000, SAFE)]:
-        cases = letcases if label == "let-boundary" else [relgen.make_case(rng, kinds=ORDER_KINDS, max_tr=7, **prof) for _ in range(n)]
+    # one sorted relation read several times (two let-tables over it, joined / appended; `append <let>` first): the order a reader
+    # inherits must not depend on how many readers there are
+    dia = [c for c in relgen.diamond_cases(SAFE, seed=31) if "sort" in c.seq[1] or any("sort" in x for x in c.seq[2:4] if isinstance(x, tuple))]
+    if quick:
+        dia = random.Random(34).sample(dia, min(len(dia), 350))
+    ctx.coverage_extra["diamond_cases"] = len(dia)
+    for label, rng, n, prof in [("let-boundary", None, 0, SAFE), ("diamond", None, 0, SAFE), ("fixed", random.Random(303), 500 if quick else 4000, SAFE), ("seed", ctx.rng, 300 if quick else 4000, SAFE)]:
+        cases = letcases if label == "let-boundary" else dia if label == "diamond" else [relgen.make_case(rng, kinds=ORDER_KINDS, max_tr=7, **prof) for _ in range(n)]
         res = relcheck.run_cases(cases, "sql.sqlite")
         for c, r in zip(cases, res):
             orig = c
